@@ -36,6 +36,7 @@ type faultConn struct {
 	failWriteAt int // -1: never
 	failReadAt  int
 	closed      int32
+	onRead      func() // runs once, after the next read that returned data and before the data is handed to the caller
 }
 
 func (c *faultConn) Write(b []byte) (int, error) {
@@ -59,7 +60,17 @@ func (c *faultConn) Read(b []byte) (int, error) {
 	if f >= 0 && n >= f {
 		return 0, errors.New("injected read failure")
 	}
-	return c.Conn.Read(b)
+	k, err := c.Conn.Read(b)
+	if k > 0 {
+		c.mu.Lock()
+		h := c.onRead
+		c.onRead = nil
+		c.mu.Unlock()
+		if h != nil {
+			h()
+		}
+	}
+	return k, err
 }
 
 func (c *faultConn) Close() error {
@@ -73,6 +84,8 @@ type wsReader struct {
 	reports   int
 	lastErr   error
 	afterErr  int // deliveries after an error report
+	closedNow bool
+	afterCls  int // deliveries after a close that had completed before the read returned
 }
 
 func (r *wsReader) HandleIncomingWebsocketMessage(m []byte) {
@@ -80,6 +93,9 @@ func (r *wsReader) HandleIncomingWebsocketMessage(m []byte) {
 	r.delivered = append(r.delivered, append([]byte{}, m...))
 	if r.reports > 0 {
 		r.afterErr++
+	}
+	if r.closedNow {
+		r.afterCls++
 	}
 	r.mu.Unlock()
 }
@@ -164,7 +180,7 @@ func runWsTrial(id int, seed int64, url string) *wsTrialResult {
 
 	nWriters := 1 + rnd.Intn(8)
 	perWriter := 1 + rnd.Intn(6)
-	kinds := []string{"local", "localreason", "peerclose", "cut", "writefault", "readfault", "peermsgs+local"}
+	kinds := []string{"local", "localreason", "peerclose", "cut", "writefault", "readfault", "peermsgs+local", "closeduringread"}
 	kind := kinds[rnd.Intn(len(kinds))]
 	res.kind = kind
 	delay := time.Duration(rnd.Intn(1500)) * time.Microsecond
@@ -225,6 +241,17 @@ func runWsTrial(id int, seed int64, url string) *wsTrialResult {
 		sut.CloseDataConnection(4001, "bye")
 	case "peerclose":
 		_ = peer.WriteMessage(websocket.CloseMessage, websocket.FormatCloseMessage(4000+rnd.Intn(500), "peer"))
+	case "closeduringread":
+		// the frame is taken from the socket, then the connection is closed locally, then the read returns it
+		fc.mu.Lock()
+		fc.onRead = func() {
+			sut.CloseDataConnection(4001, "")
+			reader.mu.Lock()
+			reader.closedNow = true
+			reader.mu.Unlock()
+		}
+		fc.mu.Unlock()
+		_ = peer.WriteMessage(websocket.BinaryMessage, []byte{1, 0xDD, 0xDD})
 	case "cut":
 		_ = peer.UnderlyingConn().Close()
 	case "writefault":
@@ -322,7 +349,7 @@ func runWsTrial(id int, seed int64, url string) *wsTrialResult {
 	reports, afterErr, ndel := reader.reports, reader.afterErr, len(reader.delivered)
 	reader.mu.Unlock()
 	switch kind {
-	case "local", "localreason", "peermsgs+local":
+	case "local", "localreason", "peermsgs+local", "closeduringread":
 		if reports != 0 {
 			fail("C13: %d error reports after a deliberate local close", reports)
 		}
@@ -335,6 +362,12 @@ func runWsTrial(id int, seed int64, url string) *wsTrialResult {
 	// (C13_transport_loss: deliveredAfterClose <= 1); more than one is a violation
 	if afterErr > 1 {
 		fail("C13: %d messages delivered after the error report", afterErr)
+	}
+	reader.mu.Lock()
+	afterCls := reader.afterCls
+	reader.mu.Unlock()
+	if afterCls > 0 {
+		fail("C13: %d message(s) whose read returned after the local close had completed were delivered", afterCls)
 	}
 	if ndel > peerSent+1 {
 		fail("C13: more deliveries (%d) than the peer sent (%d)", ndel, peerSent+1)
